@@ -18,8 +18,20 @@ def run(ctx):
     lrecs, disc = lc.gather_ticks(ctx)
     lrecs = [r for r in lrecs if r["kind"] == "nice"]
     lc.check(ctx, "LinC14.cfg", lrecs, "C14_")
+    ctx.model("MCTimeTicks", "MCTimeTicks_quick.cfg" if quick else "MCTimeTicks.cfg", workers=core.NCPU, heap="4g",
+              label="operational time nice (tick method + floor/ceil with skip): never inward, < 2 tick steps, on a unit boundary")
     trecs = tc.gather(ctx, "nice")
     tc.check(ctx, "nice", trecs, "C14_")
+    # conformance of the operational nice model with the observed niced domains: drift is reported, never a verdict
+    sub = [r for r in trecs if not r["err"]][::(3 if quick else 1)]
+    drift, st = core.validate_records("TimeDrift", "TimeDrift.cfg", sub, per_shard=800, heap="3g")
+    ctx.states += st["distinct"]
+    ctx.transitions += st["generated"]
+    ctx.extra["operational_model_conformance"] = {"niced_domains_compared": len(sub), "explained_exactly_by_TimeTicks.tla": len(sub) - len(drift),
+                                                  "spec_drift": len(drift)}
+    if drift:
+        ctx.notes.append("spec drift: %d niced domains are not reproduced by the operational model (first: %s)"
+                         % (len(drift), json.dumps(sub[drift[0][0]])[:300]))
     ctx.evaluations += len(lrecs) + len(trecs)
     ctx.nontrivial += len({json.dumps([r["dom"], r["m"]]) for r in lrecs if (r["lo"], r["hi"]) != (r["nlo"], r["nhi"])})
     ctx.nontrivial += len({json.dumps([r["dom"], r["m"]]) for r in trecs if [x[:2] for x in r["niced"]] != r["dom"]})
